@@ -170,6 +170,11 @@ package crypto
 //@ -- the signature verified (T-CRYPTO predicate SigOK) over the message under the weighted aggregate key of EXACTLY this
 //@ -- key vector and signer list: sum_k H(domain || transcript || be32(index_k) || key_k) * decode(key_k)
 //@   ensures [sig] result == nil ==> SigOK(old(WKeyOf(publics, signers)), seq(message), old(seq(*sig)))
+//@ -- added for C02, ASSUMED (definitional): the pointwise reading of [sig] in the AggSigner vocabulary of zz_contracts_c05_verif.go — AggSigner(sig, msg, n,
+//@ -- pos, index, key) MEANS "some key vector / signer list with n signers whose entry pos is (index, key) satisfies SigOK(WKeyOf(..), msg, sig)"; the
+//@ -- witness is (publics, signers) itself. C02 needs this form because the key vector (allKeys of validateInputs) is local to the caller.
+//@   assumes [c02-transcript] result == nil ==> (forall i int :: 0 <= i && i < len(signers) ==>
+//@       AggSigner(old(seq(*sig)), seq(message), len(signers), i, signers[i], old(seq(*publics[signers[i]]))))
 //@ -- the local variable A is allocated (and zeroed) before aggregateWeightedPublicKey is called: the call-time heap differs
 //@ -- from the entry heap in that fresh cell only
 //@   uses readsframe
